@@ -155,6 +155,9 @@ func vfGSParams(name string) GossipSubParams {
 	case "d2og":
 		p.D, p.Dlo, p.Dhi, p.Dscore, p.Dout = 2, 1, 3, 1, 0
 		p.OpportunisticGraftTicks = 1
+	case "d5out2":
+		// an outbound quota of two: the cut from Dhi to D has to repair a selection that holds one outbound member
+		p.D, p.Dlo, p.Dhi, p.Dscore, p.Dout = 6, 3, 7, 1, 2
 	case "d2ih":
 		// a per-heartbeat IWANT budget that takes several honoured IHAVEs to use up
 		p.D, p.Dlo, p.Dhi, p.Dscore, p.Dout = 2, 1, 3, 1, 0
